@@ -1,4 +1,4 @@
-import JoblibProofs.Lemmas.StoreWalk
+import JoblibProofs.Lemmas.StoreCall
 /-! Executable interleavings, for concrete witnesses (C05, C11). -/
 namespace JoblibModel.Store
 
